@@ -57,7 +57,7 @@ m = stock_model("uneven4", 2, "step", "middle", "lab", 12, 0, 8)
 res = core.run_model(m)
 v = [x for x in res.vectors if x["cls"] == "inflow"][3]
 expect_problem("stocks", replay_stocks.run_vector, v, lambda b: b["res"]["stock"][-1].__setitem__(0, [b["res"]["stock"][-1][0][0] + 1, b["res"]["stock"][-1][0][1]]))
-v = one_vector("MC_MassBalance.tla", {"Schemes": {3}, "MaxFlows": 1, "Emit": True}, ["EmitInv"])
+v = one_vector("MC_MassBalance.tla", {"Schemes": {3}, "MaxFlows": 1, "Emit": True, "GModes": {1}}, ["EmitInv"])
 v = [x for x in v if x["verdict"] == "fail" and not x["anynan"]][0]
 expect_problem("massbalance", replay_massbalance.run_vector, v, lambda b: b.__setitem__("verdict", "ok"))
 v = [x for x in one_vector("MC_System.tla", {"Emit": True, "Part": "defs"}, ["EmitInv"]) if not x["res"]["error"] and x["res"]["flows"]][0]
@@ -107,7 +107,7 @@ expect_tlc_violation("Add without summing to common dims", "MC_ArrayOps.tla", {"
                      "Prop_C01", ("Arrays.tla", "IN  Arr(ds, LAMBDA lab : PAdd(sx.val[lab], sy.val[lab]))", "IN  Arr(ds, LAMBDA lab : PAdd(sx.val[lab], sx.val[lab]))"))
 expect_tlc_violation("cast that forgets a source dim", "MC_ArrayOps.tla", {"Pattern": "P222", "Family": "reduce", "MaxDims": 2, "Seeds": {0}, "Emit": False},
                      "Prop_C07", ("Arrays.tla", "ELSE Arr(target, LAMBDA lab : At(x, lab))", "ELSE Arr(target, LAMBDA lab : PAdd(At(x, lab), PConst(1)))"))
-expect_tlc_violation("mass balance without sysenv mirror", "MC_MassBalance.tla", {"Schemes": {1}, "MaxFlows": 1, "Emit": False},
+expect_tlc_violation("mass balance without sysenv mirror", "MC_MassBalance.tla", {"Schemes": {1}, "MaxFlows": 1, "Emit": False, "GModes": {1}},
                      "Prop_C02", ("MassBalance.tla", 'THEN {<<2, "stock", s>> : s \\in {u \\in S.stocks : S.sproc[u] # 0}} ELSE {})', "THEN {} ELSE {})"))
 expect_tlc_violation("duplicates not refused", "MC_Tables.tla", {"Part": "import", "MaxDims": 1, "MaxFaults": 1, "StyleIds": {1}, "Emit": False},
                      "Prop_C12", ("Tables.tla", '    ELSE IF dups THEN "error"', '    ELSE IF dups THEN "array"'))
